@@ -4,6 +4,7 @@
 #include <dlfcn.h>
 #include <errno.h>
 #include <fcntl.h>
+#include <locale.h>
 #include <link.h>
 #include <signal.h>
 #include <stddef.h>
@@ -514,6 +515,7 @@ Snap take_snapshot() {
     s.cwd = r > 0 ? cw : "?";
     unsigned um = (unsigned)raw_syscall6(SYS_umask, 022, 0, 0, 0, 0, 0); raw_syscall6(SYS_umask, um, 0, 0, 0, 0, 0);
     s.umask_v = um;
+    { const char *l = setlocale(LC_ALL, nullptr); s.locale = l ? l : "?"; }
     uint64_t sh = 1469598103934665603ULL;
     for (int sig = 1; sig < 65; sig++) {
         if (sig == SIGKILL || sig == SIGSTOP || sig == 32 || sig == 33) continue;
@@ -787,12 +789,16 @@ static void proc_state_restore() {
     pthread_sigmask(SIG_SETMASK, &g_mask0, nullptr);
     raw_syscall6(SYS_umask, g_umask0, 0, 0, 0, 0, 0);
     if (g_cwd0[0]) raw_syscall6(SYS_chdir, (long)g_cwd0, 0, 0, 0, 0, 0);
+    setlocale(LC_ALL, "C");
 }
 
 RunResult sim_run(const Plan &plan) {
     RunResult r;
     lib_state_restore();
     proc_state_restore();
+    // the calling program may have selected a locale of its own (a category that does not change what the data sources print): it is part
+    // of what a wrapped call has to leave as it found it
+    if ((plan.property == "C16" || plan.property == "C02") && (plan.seed & 1)) setlocale(LC_TIME, "C.utf8");
     G = Sim();
     G.w = plan.world; G.w.render_proc();
     G.w.stdout_bytes.clear(); G.w.stderr_bytes.clear(); G.w.tty_bytes.clear();
